@@ -367,15 +367,18 @@ def check_c08(c, af, a, mf):
         return {"why": f"reset value makes the generator {oc}", "finding": None}
     verdicts = {}
     all_ok = True
+    gcfg = adef.get("config", {})
+    eff_bo = lambda r: r.get("byte_order") or gcfg.get("default_byte_order")       # object setting, else global default
+    eff_bito = lambda r: r.get("bit_order") or gcfg.get("default_bit_order")
     for name, r in regs.items():
-        okv, exp = expected_reset(r["size_bits"], r.get("byte_order"), r.get("bit_order"), r.get("reset"))
+        okv, exp = expected_reset(r["size_bits"], eff_bo(r), eff_bito(r), r.get("reset"))
         verdicts[name] = (okv, exp)
         all_ok &= okv
     ref_verdicts = {}
     for rf in refs:
         t = regs[rf["target"]]
         if "reset" in rf["override"]:
-            okv, exp = expected_reset(t["size_bits"], t.get("byte_order"), t.get("bit_order"), rf["override"]["reset"])
+            okv, exp = expected_reset(t["size_bits"], eff_bo(t), eff_bito(t), rf["override"]["reset"])
             ref_verdicts[rf["name"]] = (okv, exp)
             all_ok &= okv
     if not all_ok:
